@@ -98,6 +98,14 @@ def Fn(x):
         return "nan"
 
 
+def Ff(x):
+    """a float cell of the frame as a Fraction, "nan" when the cell holds no number (NaN / NaT of a row without data)"""
+    try:
+        return Fn(float(x))
+    except (ValueError, TypeError):
+        return "nan"
+
+
 def dump_levels(ls):
     if not isinstance(ls, (list, tuple)):
         return "nan"
@@ -109,9 +117,9 @@ def dump_book(df: pd.DataFrame):
     for name, row in df.iterrows():
         out.append({
             "name": name, "open": bool(row["state"] == "open"), "kind": str(row["type"]),
-            "strike": Fn(row["strike_price"]) if row["strike_price"] != row["strike_price"] else F(int(row["strike_price"])),
-            "expiry": "nan" if pd.isna(row["expiry_time"]) else minutes(row["expiry_time"]), "mark": Fn(float(row["mark_price"])),
-            "underlying": Fn(float(row["underlying_price"])), "delta": Fn(float(row["delta"])), "gamma": Fn(float(row["gamma"])),
+            "strike": "nan" if pd.isna(row["strike_price"]) else F(int(row["strike_price"])),
+            "expiry": "nan" if pd.isna(row["expiry_time"]) else minutes(row["expiry_time"]), "mark": Ff(row["mark_price"]),
+            "underlying": Ff(row["underlying_price"]), "delta": Ff(row["delta"]), "gamma": Ff(row["gamma"]),
             "asks": dump_levels(row["asks"]), "bids": dump_levels(row["bids"]),
         })
     return out
@@ -159,16 +167,16 @@ def dump_action(a):
     from demeter.deribit._typing import BuyAction, SellAction, DepositAction, WithdrawAction, DeliverAction, ExpiredAction
     if isinstance(a, (BuyAction, SellAction)):
         return {"type": "buy" if isinstance(a, BuyAction) else "sell", "name": a.instrument_name, "kind": a.type.value,
-                "avgPrice": F(a.average_price), "amount": F(a.amount), "premium": F(a.total_premium), "mark": F(a.mark_price),
-                "underlying": F(a.underlying_price), "fee": F(a.fee), "orders": [[F(o.price), F(o.amount)] for o in a.orders]}
+                "avgPrice": Fn(a.average_price), "amount": Fn(a.amount), "premium": Fn(a.total_premium), "mark": Fn(a.mark_price),
+                "underlying": Fn(a.underlying_price), "fee": Fn(a.fee), "orders": [[Fn(o.price), Fn(o.amount)] for o in a.orders]}
     if isinstance(a, (DepositAction, WithdrawAction)):
-        return {"type": "deposit" if isinstance(a, DepositAction) else "withdraw", "token": a.token, "amount": F(a.amount)}
+        return {"type": "deposit" if isinstance(a, DepositAction) else "withdraw", "token": a.token, "amount": Fn(a.amount)}
     if isinstance(a, (DeliverAction, ExpiredAction)):
         d = {"type": "deliver" if isinstance(a, DeliverAction) else "expired", "name": a.instrument_name, "kind": a.type.value,
-             "mark": F(a.mark_price), "amount": F(a.amount), "premium": F(a.total_premium), "strike": F(int(a.strike_price)),
-             "underlying": F(a.underlying_price)}
+             "mark": Fn(a.mark_price), "amount": Fn(a.amount), "premium": Fn(a.total_premium), "strike": ("nan" if a.strike_price != a.strike_price else F(int(a.strike_price))),
+             "underlying": Fn(a.underlying_price)}
         if isinstance(a, DeliverAction):
-            d.update({"deliverAmount": F(a.deriver_amount), "fee": F(a.fee), "income": F(a.income_amount)})
+            d.update({"deliverAmount": Fn(a.deriver_amount), "fee": Fn(a.fee), "income": Fn(a.income_amount)})
         return d
     return {"type": type(a).__name__}
 
